@@ -6,6 +6,7 @@ from core import Result
 from facts import Facts, fwalk, walk, callee, path_of, see_through
 from prims import mname
 from prim_prov import Prov, is_stream_type
+from walk import Client, Engine
 
 LEVEL = 'other'
 EXPLANATION = ('Decides the quoting clauses of the property, not round-trip equality of arbitrary terms: (1) the quoting function quotes a user name '
@@ -14,8 +15,8 @@ EXPLANATION = ('Decides the quoting clauses of the property, not round-trip equa
                '(2) whole-program string provenance: text obtained from a raw-name source (symbol names, sort-symbol names, assertion names) reaches the '
                'response channel (std::cout, a file stream, the non-error response printer), directly or through returned strings and caller-supplied '
                'streams, only through the quoting function; (3) a function that echoes parser text to the response channel distinguishes quoted-symbol '
-               'tokens, whose bars the lexer strips. Value formats (numbers, abstract values), let-abbreviation names and the `as` disambiguation are value-level '
-               'and not decided.')
+               'tokens, whose bars the lexer strips; (4) the let-dump prints a node only after every child it refers to by definition name has one. Value formats (numbers, '
+               'abstract values), the choice of let names and the `as` disambiguation are value-level and not decided.')
 
 SOURCES = {
     'opensmt::Logic::getSymName': 'symbol name (Logic::getSymName)',
@@ -98,6 +99,10 @@ def run(src, tier, seed):
     # ---- R3 parser text echoed to the response channel
     r = res.rule('echo-distinguishes-quoted-symbols', 'a function that writes ASTNode text to std::cout tests the token kind QSYM_T (the lexer strips the bars of quoted symbols)', floor=1)
     echo_rule(fx, res, r)
+    # ---- R4 let-dump: a node is printed only after every child that will be referred to by its ?def name has one
+    r = res.rule('let-dump-postorder', 'in Logic::dumpWithLets every path through one iteration of the child scan on which the child has no definition yet and is of a kind that is '
+                 'printed by its definition name raises the wait flag, so the parent is not printed with an empty operand', floor=2)
+    let_dump_rule(fx, res, r)
     return res
 
 
@@ -244,3 +249,81 @@ def echo_rule(fx, res, r):
         else:
             res.bad(r, 'echo-ignores-quoted-symbols:%s' % f['name'].split('::')[-1], fx.loc(f),
                     '%s writes ASTNode::getValue() text to std::cout but never looks at the token kind QSYM_T: a symbol written |with bars| is echoed without them' % f['name'])
+
+
+class ChildScan(Client):
+    """one iteration of the scan over the children of the node on top of the work stack: (no definition yet?, kind atoms seen true, kind atoms seen, waits?, other conditions)"""
+
+    def __init__(self, defs, child):
+        self.defs, self.child = defs, child
+        self.exits = set()
+
+    def on_cond(self, atom, s, branch):
+        nodef, ktrue, kseen, waits, other = s
+        a = see_through(atom)
+        neg = False
+        while isinstance(a, dict) and a.get('k') == 'un' and a.get('op') == '!':
+            neg = not neg
+            a = see_through(a['e'])
+        val = branch != neg
+        if isinstance(a, dict) and a.get('k') in ('bin', 'call') and a.get('op') in ('==', '!='):
+            sides = [a.get('l'), a.get('r')] if a.get('k') == 'bin' else ([a.get('recv')] + list(a.get('a') or []) if a.get('recv') is not None else list(a.get('a') or []))
+            names = [mname(see_through(x)) if isinstance(see_through(x), dict) and see_through(x).get('k') == 'call' else None for x in sides]
+            if 'find' in names and 'end' in names:
+                absent = val if a.get('op') == '==' else not val
+                return (absent, ktrue, kseen, waits, other)
+        if isinstance(a, dict) and a.get('k') == 'call' and mname(a) in ('contains', 'count') and path_of(a.get('recv')) == self.defs:
+            return (not val, ktrue, kseen, waits, other)
+        if isinstance(a, dict) and a.get('k') == 'call' and mname(a).startswith('is') and a.get('a') and path_of(a['a'][0]) == self.child:
+            return (nodef, ktrue or val, True, waits, other)
+        txt = (atom.get('s') if isinstance(atom, dict) else None) or (mname(a) if isinstance(a, dict) and a.get('k') == 'call' else str(a.get('n') if isinstance(a, dict) else a))
+        return (nodef, ktrue, kseen, waits, other | {'%s%s' % ('' if val else '!', txt)})
+
+    def on_assign(self, n, s):
+        if n.get('k') == 'bin' and n.get('op') == '=' and see_through(n['r']).get('k') == 'lit' and see_through(n['r']).get('v') is True:
+            return ((s[0], s[1], s[2], True, s[4]),)
+        return (s,)
+
+    def on_exit(self, kind, node, s):
+        if kind != 'throw':
+            self.exits.add(s)
+
+
+def let_dump_rule(fx, res, r):
+    f = fx.func('opensmt::Logic::dumpWithLets', pred=lambda g: len(g['params']) == 2)
+    maps = [d['n'] for d in fwalk(f) if d.get('k') == 'decl' and 'map<' in (d.get('ct') or '') and 'PTRef' in (d.get('ct') or '')]
+    if len(maps) != 1:
+        raise AnalysisBroken('dumpWithLets: expected one local map from terms to definition names, found %s' % maps)
+    defs = maps[0]
+    scans = [l for l in walk(f['body']) if l.get('k') == 'loop' and l.get('kind') == 'range' and l.get('var')
+             and any(x.get('k') == 'call' and mname(x) in ('find', 'contains', 'count') and path_of(x.get('recv')) == defs for x in walk(l['body']))
+             and any(x.get('k') == 'call' and mname(x) in ('push_back', 'push') for x in walk(l['body']))]
+    if len(scans) != 1:
+        raise AnalysisBroken('dumpWithLets: the loop that scans the children for missing definitions was not found (%d candidates)' % len(scans))
+    lp = scans[0]
+    c = ChildScan(defs, lp['var'])
+    pseudo = {'body': {'k': 'loop', 'kind': 'do', 'cond': {'k': 'lit', 'v': False, 't': 'bool'}, 'body': lp['body'], 'ln': lp.get('ln')}, 'lambdas': f.get('lambdas', [])}
+    eng = Engine(pseudo, c)
+    eng.run([(None, False, False, False, frozenset())])
+    if eng.broken:
+        raise AnalysisBroken('dumpWithLets: %s' % eng.broken)
+    demand = [st for st in c.exits if st[0] is True and st[1]]
+    if not demand:
+        raise AnalysisBroken('dumpWithLets: no path of the child scan establishes "no definition yet" and a printed-by-name kind; the scan changed shape')
+    bad = [st for st in demand if not st[3]]
+    if bad:
+        res.bad(r, 'let-dump-child-not-awaited', fx.loc(f, lp.get('ln')), 'Logic::dumpWithLets: a child that has no definition yet and is of a kind printed by its ?def name does not make the parent wait '
+                'when %s: the parent is then printed with an empty operand and the dumped formula differs from the asserted one' % sorted({x for st in bad for x in st[4]}))
+    else:
+        res.ok(r, 'child scan: %d path(s) with a missing definition all raise the wait flag' % len(demand))
+    # the emission reads definitions of exactly the kinds the scan waits for
+    scan_kinds = {mname(x) for x in walk(lp['body']) if x.get('k') == 'call' and mname(x).startswith('is') and x.get('a') and path_of(x['a'][0]) == lp['var']}
+    emit_kinds = set()
+    for l in walk(f['body']):
+        if l.get('k') == 'loop' and l.get('kind') == 'range' and l is not lp and any(x.get('k') == 'call' and x.get('op') == '[]' and path_of(x.get('recv')) == defs for x in walk(l['body'])):
+            emit_kinds |= {mname(x) for x in walk(l['body']) if x.get('k') == 'call' and mname(x).startswith('is') and x.get('a') and path_of(x['a'][0]) == l.get('var')}
+    emit_kinds -= {'isAnd'}
+    if emit_kinds and emit_kinds <= scan_kinds:
+        res.ok(r, 'emission refers by name to kinds %s, all awaited by the scan (%s)' % (sorted(emit_kinds), sorted(scan_kinds)))
+    else:
+        res.bad(r, 'let-dump-kind-mismatch', fx.loc(f), 'Logic::dumpWithLets prints children of kinds %s by their definition name but the scan waits only for %s' % (sorted(emit_kinds), sorted(scan_kinds)))
